@@ -265,6 +265,10 @@ pub fn build(seed: u64, tier: Tier) -> Corpus {
         if let Some(s) = crate::getters::make_spec(&format!("gth{}", i), text) {
             specs.push(s);
         }
+        // the same grammar generated from the raw AST (the getter code exists twice in the generator)
+        if let Some(s) = crate::getters::make_spec_for(&format!("gtr{}", i), text, false) {
+            specs.push(s);
+        }
     }
     let n_get = tier.pick(10, 24);
     let mut rng = Rng::new(sub_seed(seed, "corpus.getter"));
